@@ -17,8 +17,14 @@ CHECKS = {
  "C10": ("model_checking", "6 C10", "Hierarchical path predicate model-checked for nested flows (depth 2 and 3, all small tables); behaviours replayed on real nested flows; random hierarchies to depth 4 with reused inner flows judged by TLC."),
  "C17": ("model_checking", "6 C17", "C17_Clauses model-checked over all 8 style combinations incl. error results and nil values; behaviours replayed on real function nodes built option-style and builder-style with payloads of 7 Go kinds; judged by TLC."),
  "C18": ("model_checking", "6 C18", "C18_Clauses + state invariant NoEmptyAction model-checked; empty-action posts as routed steps (default connection must be followed); behaviours replayed; judged by TLC."),
+ "C06": ("model_checking", "6 C06", "C06_Clauses model-checked on FlytBatch.tla (implementation-shaped: FIFO queue of 2c, workers, WaitGroup, stop flag under the mutex) over all interleavings for small n,c; behaviours of the gated scheduler exported and realised on the real batch runner by parking every exec call on a gate (every completion order); prep payload shapes []Result/[]any/typed slices/single/nil; random sizes to 64 items / 16 workers; TLC judges every recorded history."),
+ "C07": ("model_checking", "6 C07", "C07_Clauses (exactly-once, per-item budget/fallback, slot contents) model-checked over all per-item outcome scripts in bounds, all interleavings; gated replay of every exported completion order on the real code; random batches; judged by TLC."),
+ "C08": ("model_checking", "6 C08", "State invariant ConcurrencyBound + history predicate (in-flight count at every exec entry, tickets taken inside the callback so logged intervals are contained in real ones) model-checked; barrier scenarios on the real code show c executions do run simultaneously (stuck watchdog); sequential order clause; judged by TLC."),
+ "C09": ("model_checking", "6 C09", "C09_Clauses model-checked incl. the race between one worker's Record and another's StopCheck (separate actions); gated replay where all other workers are parked while the failure is handled (strict clause, confirmed with 20/100/400 ms settle pauses before it counts); noFakeSuccess on every slot; judged by TLC."),
+ "C11": ("model_checking", "6 C11", "C11_Clauses model-checked with cancellation from inside any exec/fallback/post or before the run, with retry waits; gated replay with cancel and manually-expired deadline contexts; hang watchdog; judged by TLC."),
 }
 ENGINE = ["C01", "C02", "C03", "C04", "C05", "C10", "C17", "C18"]
+BATCH = ["C06", "C07", "C08", "C09", "C11"]
 
 checks = []
 for p in props:
@@ -32,7 +38,7 @@ for p in props:
         "thorough_cmd": "./check %s --tier thorough" % pid,
         "evidence_file": "/verif/evidence/%s.json" % pid,
         "replay_cmd_template": "./check replay {path}",
-        "engine": "tla-engine" if pid in ENGINE else "tla",
+        "engine": "tla-engine" if pid in ENGINE else "tla-batch" if pid in BATCH else "tla",
         "level_claimed": {"category": cat, "text": text, "design_ref": "DESIGN.md section " + ref},
         "level_note": TRUST,
         "technique": "explicit TLA+ spec model-checked with TLC; TLC-generated behaviours replayed into the real code; TLA+ property predicates evaluated by TLC on histories recorded from the real code",
@@ -48,6 +54,8 @@ m = {
  "engines": [
    {"name": "tla-engine", "path": "/verif/spec/FlytEngine.tla", "serves_properties": ENGINE,
     "kind_free_text": "TLA+ operational spec of Run/Flow/function nodes + PropsEngine.tla predicates + MCEngine/TPEngine front-ends + Go harness"},
+   {"name": "tla-batch", "path": "/verif/spec/FlytBatch.tla", "serves_properties": BATCH + ["C02", "C04", "C18"],
+    "kind_free_text": "TLA+ operational spec of the batch runner over the worker pool + PropsBatch.tla predicates + MCBatch/TPBatch front-ends + gating Go harness"},
  ],
  "checks": checks,
  "notes": "See DESIGN.md. Exit 2 = machinery failure (never a verdict).",
